@@ -1062,6 +1062,10 @@ def _run(ctx):
     logging.getLogger("whatshap").setLevel(logging.CRITICAL)   # "Unsupported CIGAR operation" etc. are provoked on purpose
     if ctx.replay:
         c = ctx.replay
+        if isinstance(c, str):     # a path: a replay file written by a failed run ({"case": ...}) or a corpus file (the case itself)
+            c = json.load(open(c))
+            if isinstance(c.get("case"), dict) and "property" in c:
+                c = c["case"]
         replay_case(ctx, c, "replay")
         return
     for name, c in ctx.corpus():
